@@ -22,7 +22,7 @@ for d in sorted(os.listdir(root), key=lambda s: (s.split("-")[0], int(s.split("-
         print("refusing: /repo not clean"); sys.exit(2)
     r = subprocess.run(["git", "-C", REPO, "apply", "--3way", patch], capture_output=True, text=True)
     if r.returncode != 0:
-        subprocess.run(["git", "-C", REPO, "checkout", "--", "."]); subprocess.run(["git", "-C", REPO, "reset", "-q"])
+        subprocess.run(["git", "-C", REPO, "reset", "-q", "--hard", "HEAD"])
         rows.append((d, "patch does not apply to current /repo HEAD", []))
         out = {"check": f"./check {pid} --tier {tier}", "result": "not run: patch does not apply to the current /repo HEAD (" + r.stderr.strip()[:200] + ")"}
     else:
